@@ -65,6 +65,22 @@
     Nested defs / lambdas inside a body: their signatures ARE expressions of that body (the
     property admits them); the pinned `visit_AnyFunctionDef` reads parameter names and body only,
     so the model's `Node.funcDef` / `Node.lam` carry no signature and `occ` lists none.
+  NO STATE SURVIVES FROM ONE ANALYSED CALLABLE / FILE TO THE NEXT (which plug-in analyser handles a call).
+  `custom_analyser_for_target` RESOLVES the callee in the context of the callable being analysed.
+    * `calleeAnalyser`: the selection as a function of (plug-in table, module name, CURRENT context, call node);
+      `C02_callee_analyser_of_context`: it reads the context only through `get_call_target`;
+    * `C02_param_shadows_plugin_binding` (all inputs): a plain identifier that is a PARAMETER of the analysed
+      callable selects no analyser — whatever the enclosing contexts bind that spelling to (an import of
+      `collections.defaultdict`, a builtin, anything another function / file used it for);
+    * `C02_param_callee_is_an_ordinary_call` (all inputs): such a call is reported under its own spelled callee
+      with the parameter as target (it is not replaced by a plug-in derivation);
+    * `C02_test_rebound_callee`, `C02_cex_if_callee_were_chosen_by_spelling`: `def lookup(defaultdict, a): return
+      defaultdict(a.b)` next to `def make(rows): defaultdict(rows.f)` — pinned: calls `defaultdict`, gets `a.b`;
+      an analyser remembered BY SPELLING (= the same body analysed as if the spelling still denoted the import)
+      reports the call `a.b`, which no call node of the body spells, and drops the call that is made;
+    * `tieA_custom_analyser_has_no_state`: `custom_analyser_for_target` reads, beyond its two parameters, the
+      two naming helpers and the plug-in registry only; `visit_Call` hands it `(node, self.context)`; the module
+      `rattr/analyser/function.py` creates no object at import time (regenerated from the source).
   [interp] (i) spellings are those of rattr's namer `names_of` (README agreement is C10);
   (ii) an assignment target is "stored" by position (`Role.target`), a walrus records the BASE
   name of its target (= its spelling for the only valid target, a bare Name: `walrus_name`);
@@ -77,6 +93,7 @@ import RattrProofs.Lemmas.VisitJust
 import RattrProofs.Props.C01
 import RattrProofs.Lemmas.ClassEntries
 import RattrProofs.Lemmas.C02Callable
+import RattrProofs.Lemmas.C08Shapes
 import RattrModel.Generated.C02
 
 namespace Rattr.C02
@@ -606,6 +623,97 @@ theorem C02_file_entry_init (env : Env) (mn : Str) (cls : Str) (decos : List Ann
         (Dict.set cir { sy with iface := some init.ps.iface, callable := true } (FileA.irOf t)) ∧ Just init.body t :=
   ⟨C01.fileAnalyser_uses_fnA_init env mn cls decos init s cir k sy t hi hsy hr ht, Callable.analyse_just ht⟩
 
+/-! ### which plug-in analyser handles a call: decided by RESOLVING the callee, here and now
+
+`custom_analyser_for_target(node, context)` (rattr/analyser/function.py): the callee's spelling is resolved in the
+context of the callable being analysed and the plug-in table is asked about the resolved SYMBOL. Nothing else
+enters: no memory of what the same spelling was bound to in another function or another file. -/
+
+/-- the analyser (by qualified name) the pinned code selects for a call node visited in `ctx`: the scrutinee of
+`FnA.visit`'s call case, as a function of its own. -/
+def calleeAnalyser (env : Env) (mn : Str) (ctx : Context) (node : Node) : Option Str :=
+  match targetNameNoUnravel node with
+  | .ok _ t => analyserFor env mn (Context.getCallTarget env.ctxEnv ctx t (isCallOnCall node) false).1
+  | _ => none
+
+/-- the selection reads the context through `get_call_target` only: two contexts that resolve the callee to the
+same symbol select the same analyser — whatever else they hold, whatever was analysed before. -/
+theorem C02_callee_analyser_of_context (env : Env) (mn : Str) (c1 c2 : Context) (node : Node)
+    (h : ∀ t, (Context.getCallTarget env.ctxEnv c1 t (isCallOnCall node) false).1 =
+              (Context.getCallTarget env.ctxEnv c2 t (isCallOnCall node) false).1) :
+    calleeAnalyser env mn c1 node = calleeAnalyser env mn c2 node := by
+  unfold calleeAnalyser
+  cases targetNameNoUnravel node with
+  | ok b t => simp only [h t]
+  | fatal d => rfl
+  | crash e => rfl
+
+/-- a plain identifier that is a PARAMETER of the analysed callable selects no plug-in analyser, for every
+enclosing context `root` — also one that binds the same spelling to `collections.defaultdict`, to a builtin, or
+to whatever another function or file used it for (unless the plug-in table itself holds `<module>.<x>`). -/
+theorem C02_param_shadows_plugin_binding (env : Env) (mn x : Str) (root : Context) (ps : Params)
+    (args : List Node) (kwn : List (Option Str)) (kwv : List Node)
+    (hc : C08S.Clean x) (hx : x ∈ ps.all) (hq : env.analysers.contains (mn ++ '.' :: x) = false) :
+    calleeAnalyser env mn (analyseInit root ps).ctx (.call (.name x .load) args kwn kwv) = none := by
+  have hf : pureChain (.name x .load) = true := rfl
+  have e1 := C08S.getCallTarget_bare env.ctxEnv (analyseInit root ps).ctx x
+    (withoutCallBrackets (chainSpell (Node.name x .load) ++ lit "()"))
+    (isCallOnCall (.call (.name x .load) args kwn kwv)) false hc (C08S.lookupKey_call x hc)
+  have e2 : Context.get? (analyseInit root ps).ctx x = some (Context.nameSym x) :=
+    addArguments_shadows _ ps x hx
+  unfold calleeAnalyser
+  simp only [targetName_call_chain (.name x .load) args kwn kwv hf]
+  rw [e1, e2]
+  exact C08S.analyserFor_nameSym env mn x hq
+
+/-- … and the call IS reported as the ordinary call it is: under its own spelled callee `x`, with the parameter
+as its target — for every enclosing context (the getattr-family spellings excepted: the namer spells those calls
+as the dotted access whatever the identifier is bound to; known finding). -/
+theorem C02_param_callee_is_an_ordinary_call (env : Env) (mn x : Str) (root : Context) (ps : Params)
+    (args : List Node) (kwn : List (Option Str)) (kwv : List Node) (s' : St)
+    (hc : C08S.Clean x) (hxa : xattrBuiltins.contains x = false) (hx : x ∈ ps.all)
+    (hq : env.analysers.contains (mn ++ '.' :: x) = false)
+    (h : visit env mn (.call (.name x .load) args kwn kwv) (analyseInit root ps) = .ok s') :
+    ∃ c ∈ s'.calls, c.name = x ∧ c.target = some (Context.nameSym x) :=
+  C08S.visit_call_of_param env mn x args kwn kwv _ s' hc hxa (addArguments_shadows _ ps x hx) hq h
+
+/-- `defaultdict(a.b)` -/
+def ddCall : Node := .call (.name (S "defaultdict") .load) [.attr (.name (S "a") .load) (S "b") .load] [] []
+/-- `return defaultdict(a.b)` -/
+def lookupBody : List Node := [.ret [ddCall]]
+/-- the names of the body's call nodes -/
+def spelledCallees (body : List Node) : List Str :=
+  (occL body).filterMap fun o => match o.1, namesOf true o.2 with
+    | .call, .ok _ f => some (withoutCallBrackets f)
+    | _, _ => none
+
+/-- TEST (kernel evaluation; root: `from collections import defaultdict`): `def make(rows): defaultdict(rows.f)`
+reports the factory call `rows.f`; `def lookup(defaultdict, a): return defaultdict(a.b)` — the same spelling, a
+PARAMETER — reports the call `defaultdict`, the get `a.b` and no call `a.b`; no analyser is selected there. -/
+theorem C02_test_rebound_callee :
+    C01.callsOf (C01.run ["rows"] [.other (S "Expr") [.call (.name (S "defaultdict") .load)
+        [.attr (.name (S "rows") .load) (S "f") .load] [] []]]) = some [S "rows.f"] ∧
+    C01.callsOf (C01.run ["defaultdict", "a"] lookupBody) = some [S "defaultdict"] ∧
+    C01.getsOf (C01.run ["defaultdict", "a"] lookupBody) = some [S "a.b"] ∧
+    calleeAnalyser C01.env0 (S "m") (analyseInit C01.root0 (C01.P ["defaultdict", "a"])).ctx ddCall = none ∧
+    calleeAnalyser C01.env0 (S "m") (analyseInit C01.root0 (C01.P ["rows"])).ctx ddCall =
+      some (S "collections.defaultdict") := by decide +kernel
+
+/-- what C02 excludes: an analyser remembered BY SPELLING hands `lookup`'s call to the defaultdict analyser —
+the analysis of the same body as if the spelling still denoted the import (parameters `["a"]`). It reports the
+call `a.b`, which NO call node of the body spells, and drops the call that is made (`defaultdict`, spelled by the
+body's only call node). NOT the pinned behaviour (`C02_test_rebound_callee`). -/
+theorem C02_cex_if_callee_were_chosen_by_spelling :
+    C01.callsOf (C01.run ["a"] lookupBody) = some [S "a.b"] ∧
+    C01.getsOf (C01.run ["a"] lookupBody) = some [] ∧
+    spelledCallees lookupBody = [S "defaultdict"] := by decide +kernel
+
+/-- non-vacuity of `C02_param_shadows_plugin_binding` / `C02_param_callee_is_an_ordinary_call`. -/
+example : C08S.Clean (S "defaultdict") ∧ xattrBuiltins.contains (S "defaultdict") = false ∧
+    S "defaultdict" ∈ (C01.P ["defaultdict", "a"]).all ∧
+    C01.env0.analysers.contains (S "m" ++ '.' :: S "defaultdict") = false :=
+  ⟨C08S.clean_of_plainIdent (by decide), by decide, by decide, by decide⟩
+
 /-! ### Tie A: what of the definition node the analyser reads (Generated/C02.lean) -/
 
 open Rattr.Generated.C02 in
@@ -636,5 +744,16 @@ theorem tieA_unread_fields_are_the_signature :
     (∀ f ∈ Sig.fieldNames, f ∈ functionDefFields ++ argumentsFields ++ argFields ∧
         !(analyseReads ++ functionBodyReads ++ fromArgumentsReads).contains ("$." ++ f) ∧
         !fromArgumentsAttrs.contains f) := by decide
+
+open Rattr.Generated.C02 in
+/-- `custom_analyser_for_target(node, context)` reads — beyond its two parameters — the two naming helpers and
+the plug-in registry, nothing else of its module; `visit_Call` hands it the call node and the analyser's CURRENT
+context; and `rattr/analyser/function.py` binds no identifier by assignment at import time (no module-level
+table that could outlive the analysis of one callable). This is what `calleeAnalyser` models. -/
+theorem tieA_custom_analyser_has_no_state :
+    customAnalyserFreeNames = ["fullname_of", "plugins", "without_call_brackets"] ∧
+    customAnalyserParams = ["node", "context"] ∧
+    customAnalyserCalledWith = ["node, self.context"] ∧
+    functionModuleState = [] := by decide
 
 end Rattr.C02
